@@ -3,6 +3,8 @@ package mapmodel
 import (
 	"context"
 	"errors"
+	"strconv"
+	"strings"
 	"sync"
 	"time"
 
@@ -202,4 +204,18 @@ func Exec(b centrifuge.MapBroker, ch string, op Op, cursor string) Res {
 		return Res{Err: errStr(err), Pos: Pos{Offset: r.Position.Offset, Epoch: r.Position.Epoch}, Pubs: views(r.Publications)}
 	}
 	return Res{Err: "harness: unknown op"}
+}
+
+// Clean escapes control and non-ASCII bytes (keys contain NUL) so that verdict lines stay text.
+func Clean(msg string) string {
+	var b strings.Builder
+	for _, r := range msg {
+		if r >= 0x20 && r < 0x7f && r != '\\' {
+			b.WriteRune(r)
+			continue
+		}
+		q := strconv.QuoteRuneToASCII(r)
+		b.WriteString(q[1 : len(q)-1])
+	}
+	return b.String()
 }
